@@ -913,7 +913,7 @@ class sptensor:
             if self.shape != other.shape:
                 assert False, "Sptensor and tensor must be same shape for innerproduct"
             [subsSelf, valsSelf] = self.find()
-            valsOther = other[subsSelf]
+            valsOther = np.atleast_1d(other[subsSelf])
             return valsOther.transpose().dot(valsSelf).item()
 
         if isinstance(other, (ttb.ktensor, ttb.ttensor)):  # pragma: no cover
@@ -1713,7 +1713,7 @@ class sptensor:
                 assert False, "Size mismatch in scale"
             return ttb.sptensor(
                 self.subs,
-                self.vals * factor[self.subs[:, dims]][:, None],
+                self.vals * np.atleast_1d(factor[self.subs[:, dims]])[:, None],
                 self.shape,
             )
         if isinstance(factor, ttb.sptensor):
